@@ -93,7 +93,10 @@ func (ts *TimestampTZ) MarshalJSON() ([]byte, error) {
 //   - 2006-01-02T15:04:05.999999999Z07:00
 //   - 2006-01-02T15:04:05.999999999Z07
 func (ts *TimestampTZ) UnmarshalJSON(data []byte) error {
-	str := data[1 : len(data)-1] // Unquote
+	str, err := unquoteJSON(data)
+	if err != nil {
+		return err
+	}
 
 	// Figure out which TZ format we need.
 	var format string
